@@ -322,7 +322,15 @@ def rand_leaf(rng, W, kind=None):
             # slices defined in the space of another, unaligned dataset: selects nothing here
             return {"k": kind, "slices": [rand_slice_triple(rng, 3)], "ref": "g"}
         k = W.nd if rng.random() < 0.7 else rng.randint(1, W.nd)
-        return {"k": kind, "slices": [rand_slice_triple(rng, W.shape[i]) for i in range(k)]}
+        slices = [rand_slice_triple(rng, W.shape[i]) for i in range(k)]
+        if rng.random() < 0.12:
+            # a backward slice along one axis (legal; selects the same kind of element set)
+            i = rng.randrange(k)
+            n = W.shape[i]
+            a, b = rng.randrange(0, n), rng.randrange(0, n)
+            slices[i] = rng.choice([[None, None, -1], [None, None, -2], [max(a, b), None, -1], [max(a, b), min(a, b), -1],
+                                    [None, min(a, b), -2]])
+        return {"k": kind, "slices": slices}
     if kind == "element":
         n = int(np.prod(W.shape))
         return {"k": kind, "indices": sorted(set(rng.randrange(n) for _ in range(rng.randint(1, max(1, n // 2))))),
